@@ -224,6 +224,24 @@ def call_by_name(fn, *args, **available):
     return fn(*args, **kw)
 
 
+class UserValue(list):
+    """Stand-in for a value that belongs to the user (a call result, a literal, an argument, a stored value): deliberately awkward the way real
+    values are - FALSY and of length 0, UNHASHABLE, EQUAL to every other empty list yet a distinct object, iterable, an instance (but not the exact
+    type) of a builtin container.  The library must treat such values as opaque: consult their truth value, compare, hash, sort, copy or iterate
+    them and an identity obligation of the unit fails."""
+
+    def __init__(self, tag=""):
+        list.__init__(self)
+        self.tag = tag
+
+    def __repr__(self):
+        return f"<user value {self.tag or hex(id(self))}>"
+
+
+def user_value(tag=""):
+    return UserValue(tag)
+
+
 def pure_stdlib():
     """pure helper modules of the standard library that extracted code may use whatever the sidecar anticipated (a refactoring may
     introduce e.g. collections.defaultdict or itertools.chain); applied to symbolic proxies they raise TypeError -> undecided"""
